@@ -184,6 +184,8 @@ func (s *sys) letters() []string {
 			ls = append(ls, fmt.Sprintf("OpenRW:%d", i), fmt.Sprintf("OpenRO:%d", i), fmt.Sprintf("OpenMissing:%d", i), fmt.Sprintf("OpenRORec:%d", i), fmt.Sprintf("OpenROChk:%d", i))
 			// the blocking entry point is an Open too
 			ls = append(ls, fmt.Sprintf("OpenBRW:%d", i), fmt.Sprintf("OpenBRO:%d", i))
+			// and so is its typed twin (typed_blocking.go): opened in both modes and closed at once
+			ls = append(ls, fmt.Sprintf("OpenTB:%d", i))
 			if s.headIndexExists() {
 				ls = append(ls, fmt.Sprintf("OpenFailRW:%d", i), fmt.Sprintf("OpenFailRO:%d", i))
 			}
@@ -244,6 +246,33 @@ func (s *sys) apply(letter string) {
 			if l, err := klevdb.Open(filepath.Join(w.Dir, "missing", "dir"), o); err == nil {
 				s.failf("Open(readonly=%v) of a missing directory without CreateDirs succeeded", ro)
 				_ = l.Close()
+			}
+		}
+	case "OpenTB":
+		// the typed blocking entry point: same lock matrix, a refusal (or a failure after the log was
+		// opened: the wrapper asks for NextOffset) leaves no lock behind (probe after the letter), a
+		// read-only open changes nothing; a handle it returns is closed again
+		for _, ro := range []bool{true, false} {
+			o := cfg.Options()
+			o.Readonly = ro
+			before := logsDigest(w.Dir)
+			tl, err := klevdb.OpenTBlocking[string, string](w.Dir, o, klevdb.StringCodec, klevdb.StringCodec)
+			allowed := !s.anyOpen(1) && (ro || !s.anyOpen(2))
+			switch {
+			case err == nil && !allowed:
+				s.failf("OpenTBlocking(readonly=%v) succeeded while the directory is open (slots %v)", ro, s.mode)
+			case err != nil && allowed && !s.damaged:
+				s.failf("OpenTBlocking(readonly=%v) failed although nothing conflicting is open (slots %v): %v", ro, s.mode, err)
+			}
+			if err == nil {
+				if cerr := tl.Close(); cerr != nil {
+					s.failf("Close of a typed blocking handle failed: %v", cerr)
+				}
+			}
+			if ro || err != nil && !allowed {
+				if d := logsDigest(w.Dir); d != before {
+					s.failf("OpenTBlocking(readonly=%v) changed a log file (open error: %v)", ro, err)
+				}
 			}
 		}
 	case "OpenFailRW", "OpenFailRO":
